@@ -32,13 +32,27 @@ def run(ck):
         crng = ck.rng("case", i)
         p = imm.gen_params(crng, maxsize=maxsize if crng.random() < .9 else maxsize * 2,
                            maxn=16 if crng.random() < .3 else 8)
+        if i % 10 == 7:
+            # more than ten servers, every share needed (k = N or N-1): the reader must ask servers beyond its first ten
+            # outstanding share queries, in whatever order the answers come back
+            nn = crng.randint(11, 16)
+            p.update(n=nn, k=crng.choice([nn, nn, nn - 1]), nservers=nn + crng.randint(0, 3), happy=1,
+                     size=crng.choice([56, 100, 1000, p["size"]]))
+            p["size"] = max(56, p["size"])
         if i % 40 in (1, 2, 3, 4):
             # the literal boundaries are always present, whatever the seed: empty file, one byte, 55 (last literal), 56
             p["size"] = (0, 1, 55, 56)[i % 40 - 1]
         profile = crng.choice(["fifo", "per-server-fifo", "per-server-fifo", "free"])
+        if i % 10 == 7:
+            profile = crng.choice(["free", "free", "per-server-fifo"])
+            ck.hit("more-than-ten-servers-all-shares-needed")
         eager = crng.choice([0.0, 0.0, 0.02])
         g = VGrid(nservers=p["nservers"], seed=crng.getrandbits(32), profile=profile, eager_timers=eager,
                   keep_log=False)
+        if i % 10 == 7:
+            # every server answers the share query a little late, so that more than ten queries are outstanding at once
+            for vs in g.servers:
+                vs.add_fault("delay", method="get_buckets", delay=crng.choice([0.05, 0.05, 0.5]))
         from allmydata.immutable.downloader.node import DownloadNode
         saved_guess = DownloadNode.default_max_segment_size
         # the downloader's initial guess of the segment size (1 MiB in production): below / equal / above the real one
@@ -55,7 +69,8 @@ def run(ck):
     ck.extra["distinct_schedules"] = len(schedules)
     ck.extra["eventual_exceptions"] = 0
     ck.require_monitor("byte-equality", "ueb-model")
-    ck.require_reach("multi-segment", "literal", "empty-file", "tail-padded", "k-subset-read")
+    ck.require_reach("multi-segment", "literal", "empty-file", "tail-padded", "k-subset-read",
+                     "more-than-ten-servers-all-shares-needed")
 
 
 def one_case(ck, g, p, rng, profile, schedules):
